@@ -199,3 +199,58 @@ func isBoxSpacing(v ssa.Value) bool {
 		return strings.HasPrefix(n, "Padding") || strings.HasPrefix(n, "Margin") || (strings.HasPrefix(n, "Border") && strings.HasSuffix(n, "Width"))
 	})
 }
+
+// c11SoftHyphensLongestFirst (R18): a word with several soft hyphens is broken at the last one that fits.
+// splitFirstLine tries the candidates in the order hyphenDictionaryIterationsOld yields them and keeps the first
+// that fits (the last one when none does): they come longest first.  The loop that appends the prefixes walks the word
+// from its end (its counter is decremented), or the list is reversed afterwards.
+// (`aa&shy;bb&shy;cc&shy;dd` in 6em gave "aa-" / "bbccdd" instead of "aabb-" / "ccdd".)
+func c11SoftHyphensLongestFirst(c *core.Check) {
+	p := c.Prog
+	r := c.Rule("R18", "soft-hyphen candidates come longest first: in text.hyphenDictionaryIterationsOld the loop that appends the prefixes of the word decrements its counter (it walks the word from the end), or the result goes through a reversing function", 1)
+	fn := p.Fn("text", "hyphenDictionaryIterationsOld")
+	if fn == nil {
+		r.Anchor("text.hyphenDictionaryIterationsOld")
+		return
+	}
+	key := "text.hyphenDictionaryIterationsOld | order of the candidates"
+	var loop *core.Loop
+	reversed := false
+	core.Instrs(fn, func(in ssa.Instruction) {
+		call, ok := in.(*ssa.Call)
+		if !ok {
+			return
+		}
+		if b, ok := call.Call.Value.(*ssa.Builtin); ok && b.Name() == "append" {
+			if l := core.InnermostLoop(fn, call.Block()); l != nil {
+				loop = l
+			}
+		}
+		if callee := call.Call.StaticCallee(); callee != nil && strings.Contains(strings.ToLower(callee.Name()), "reverse") {
+			reversed = true
+		}
+	})
+	if loop == nil {
+		r.Unknown(key, p.Pos(fn.Pos()), "no loop appending the candidates")
+		return
+	}
+	// the counter: a header phi of integer type whose back edge value is phi - const (or phi + negative const)
+	decreasing := false
+	for _, in := range loop.Header.Instrs {
+		phi, ok := in.(*ssa.Phi)
+		if !ok {
+			break
+		}
+		for i, e := range phi.Edges {
+			if !loop.Blocks[loop.Header.Preds[i]] {
+				continue
+			}
+			if b, ok := e.(*ssa.BinOp); ok && b.X == ssa.Value(phi) {
+				if k, ok := core.ConstInt(b.Y); ok && ((b.Op == token.SUB && k > 0) || (b.Op == token.ADD && k < 0)) {
+					decreasing = true
+				}
+			}
+		}
+	}
+	r.Cond(decreasing || reversed, key, p.Pos(fn.Pos()), "the word is walked from its end", "the prefixes are appended shortest first and not reversed: the first candidate that fits is the shortest, and the word is broken at its first soft hyphen instead of the last one that fits")
+}
